@@ -253,6 +253,15 @@ func EvalAccepted(pr *ProgResult) {
 	// C01 (a,b): compile incl. typed assignment
 	if pr.BuildErr != "" {
 		pr.add("C01", "generated package does not compile under default tags", pr.BuildErr)
+		// a value of the wrong type wired into a parameter, field or result is also a wiring
+		// defect (C02): the dependency is not fed by the source of its type
+		for _, ln := range strings.Split(pr.BuildErr, "\n") {
+			if strings.Contains(ln, "wire_gen.go") && strings.Contains(ln, "cannot use ") &&
+				(strings.Contains(ln, " in argument to ") || strings.Contains(ln, " in struct literal") || strings.Contains(ln, " in return statement")) {
+				pr.add("C02", "generated injector wires a value of the wrong type (compile error): "+strings.TrimSpace(ln[strings.Index(ln, "cannot use "):]), pr.BuildErr)
+				break
+			}
+		}
 		return
 	}
 	if pr.Calls == nil {
